@@ -1225,6 +1225,9 @@ def run_tool(fl, tool, d):
     o.marker = MARKER in o.out
     text = o.err + ("\n" + o.out if tool != "virt-run" else "")
     o.diag = own_diag_lines(text)
+    if tool == "virt-run":
+        # what the VM says once the program is running (incl. the fuel hook) is not a diagnostic about the program text
+        o.diag = [l for l in o.diag if not l.startswith("runtime error:")]
     o.ccdiag = bool(re.search(r"\berror\b", "\n".join(l for l in o.err.splitlines() if GCC_LINE.match(l)))) or "C compilation failed" in o.err
     o.stage = stage_of(tool, o.err + o.out)
     if r.timeout or r.cpu_exceeded:
